@@ -17,6 +17,11 @@ def claim(pid, technique, text, note, ref):
 
 
 exec(open(os.path.join(HERE, 'tools', 'claims.py')).read())
+exec(open(os.path.join(HERE, 'tools', 'claims_extra.py')).read())
+for _p, (_t, _s) in EXTRA.items():
+    if _p in CLAIMED:
+        CLAIMED[_p]['technique'] += _t
+        CLAIMED[_p]['text'] += _s
 
 props = [json.loads(l)['id'] for l in open(os.path.join(HERE, 'properties.jsonl'))]
 checks = []
@@ -52,8 +57,9 @@ m = {
                  'kind_free_text': 'repository-specific static analyser: '
                  'ast loader, statement CFG (dominance / must-pass-through),'
                  ' call graph, access paths, alias/effect analysis, '
-                 'dimension/sign/rank abstract domains; nothing under /repo '
-                 'is imported or executed'}],
+                 'sign/interval, rank, record-shape and exact rational-'
+                 'function abstract domains (incl. symbolic array index); '
+                 'nothing under /repo is imported or executed'}],
     'checks': checks,
     'notes': 'All checks are static (technique family: static analysis). '
              'Exit 2 + ANALYSIS-ERROR means the analyser lost an anchor, '
